@@ -460,7 +460,15 @@ def _put_one_constant(
     if (value < 0 if isinstance(value, (int, float)) else value.imag < 0 if isinstance(value, complex) else False):
         raise NodeError('Constant.value cannot be negative')
 
-    self._put_src(repr(value), *self.loc, True)
+    src = repr(value)
+
+    if isinstance(value, (float, complex)):
+        if value != value:
+            raise NodeError('Constant.value cannot be NaN')
+
+        src = src.replace('inf', '1e309')  # same as ast.unparse(), 'inf' is a Name
+
+    self._put_src(src, *self.loc, True)
 
     ast = self.a
     ast.value = value
